@@ -13,6 +13,8 @@ for name in names:
     if only and name not in only:
         continue
     pid = name.split("-")[0]
+    if name.startswith("C04-2") or name.startswith("C04-r2"):
+        pass
     patch = "%s/seeded/%s/patch.diff" % (V, name)
     agent = {}
     ap = "%s/seeded/%s/meta.agent.json" % (V, name)
